@@ -193,6 +193,19 @@ PROPS["C17"] = {
 }
 
 
+PROPS["C18"] = {
+    "level": "exploration",
+    "engine": "enumeration + Python differential + libFuzzer",
+    "level_text": "all 1,114,112 code points through Unicode::toString / fromString / length / isValid against Python's UTF-8 codec; all byte strings up to length 2 (thorough: 3, 16.8 million) through the decoders on exactly sized heap blocks under ASan with a strict reference decoder; boundary and random integers through from*/to* judged by Python int(); fromHex against bytes.hex(); fromBase64 on the RFC 4648 encodings of all byte strings of length <=2 and random ones up to 300 bytes, and on 2.56 million other 4-byte strings plus random longer ones (bytes >=0x80, padding in odd places) under ASan + UBSan bounds; a libFuzzer target covers longer inputs",
+    "level_note": "trusted: CPython's UTF-8 codec (surrogatepass: the library encodes surrogate code points as generalised UTF-8, which is taken as agreeing), int(), base64; the strict reference decoder in harness/c18_codec.cpp; ASan/UBSan",
+    "technique": "exhaustive enumeration of small sub-spaces and sampling with differential oracles (Python codecs/int/base64) under ASan/UBSan",
+    "rule": "harness/c18_codec.cpp enumerates, oracle c18.py judges. Non-trivial = multi-byte code points, byte strings with a multi-byte lead byte (incl. truncated tails), integers of >=10 digits, padded base64 encodings, base64 inputs with bytes >=0x80; counted per record.",
+    "assumptions": ["surrogate code points encode as generalised UTF-8", "over-long UTF-8 forms are not rejected by isValid (the statement does not ask for it)"],
+    "parts": [{"name": "codec", "kind": "custom", "module": "c18", "tiers": {"quick": {}, "thorough": {}}},
+              lfz("fuzz", ["harness/c18_fuzz.cpp"], {"runs": 200000, "workers": 4, "time": 60}, {"runs": 3000000, "workers": 16, "time": 600}, max_len=256)],
+}
+
+
 # property modules kept in separate files (props_cXX.py define PROPS["CXX"] using the helpers above)
 import glob as _glob, os as _os
 for _f in sorted(_glob.glob(_os.path.join(_os.path.dirname(_os.path.abspath(__file__)), "props_c*.py"))):
